@@ -100,11 +100,13 @@ def check_C20(ctx):
     # strings are opaque; comments end at CR or LF and nowhere else (expected output computed here, no model)
     direct = []
     for body in [b"# not a comment", b"a;b", b"( )", b" \t\v\f ", b"x = 1 # y", "\u0085 ".encode(), b"{}", b"#", b";;", b"a  b",
-                 b"print 2", b"'", b"`"]:
+                 b"print 2", b"'", b"`", b"a\rb", b"\r", b"\r\r x", b"a\x0bb\x0cc", "\u00a0".encode(), b"\x00", b"tab\there", b"# \r #"]:
         direct.append((b'print "' + body + b'"\n', body + b"\n"))
     for end, stops in [(b"\n", True), (b"\r", True), (b"\r\n", True), (b"\v", False), (b"\f", False), ("\u0085".encode(), False),
                        (" ".encode(), False), (b"\t", False), (b";", False), (b'"', False), (b"\\", False), (b"\\\n", True)]:
         direct.append((b"print 1 # c" + end + b"print 2\n", b"1\n2\n" if stops else b"1\n"))
+    direct.append((b'def b "x\ry" { print NAME + "|" }\r', b"x\ry|\n"))
+    direct.append((b'var s = "p\rq"\rprint s\rprint "1\r2" + s\r', b"p\rq\n1\r2p\rq\n"))
     for i, (src, want) in enumerate(direct):
         cases.append(dict(id="D%d" % i, src=src, want=want))
     rs, missing, err = interp.run(ctx, cases)
@@ -182,6 +184,14 @@ def check_C08(ctx):
         bad = rng.choice(errs_compile + errs_runtime)
         post = g.program(rng.randint(0, 3))
         srcs.append(pad + pre + rng.choice([b"", b"  ", b"\n \t"]) + bad + post)
+    # large configurations: operands (constant indices, local slots) that need 2 or 3 bytes must not shift the
+    # position table; the error comes after that point, in the middle of an expression that continues
+    for n in [100, 119, 121, 125, 250, 400] + ([2400] if ctx.thorough else []):
+        big = b"".join(b'def srv "s%d" {\n  host = "h%d"\n  port = %d\n}\n' % (i, i, 7000 + i) for i in range(n // 3 + 1))
+        biglocals = b"".join(b"var v%d = %d\n" % (i, i) for i in range(n))
+        for bad in errs_runtime[:4] + [b"var z = 0\nprint 10 / z -\n   100\n", b'var s = "x"\nprint -s\n  + 1\n', b"def q { x = nosuch + 2 }\n"] + errs_compile[:3]:
+            srcs.append(big + bad + b"print 1\n")
+            srcs.append(biglocals + bad)
     cases = [dict(id="d%d" % i, src=s) for i, s in enumerate(srcs)]
     rs, missing, err = interp.run(ctx, cases)
     decide(ctx, rs, missing, err, {"log", "err", "parts"}, "C08_compile_diag/C08_runtime", "diag", spec=False)
@@ -320,8 +330,11 @@ def instr_offsets(code):
     return out if i == len(code) else None
 
 
+SEQ = ["", "t", "", "ts", "s", ""]
+
+
 def check_C19(ctx):
-    ctx.build(["Proofs/TieFormat.vo", "Proofs/TieVm.vo", "Properties/C19.vo"], "Properties/C19.v")
+    ctx.build(["Proofs/TieFormat.vo", "Proofs/TieVm.vo", "Proofs/TieGlobals.vo", "Properties/C19.vo"], "Properties/C19.v")
     rng = random.Random(ctx.seed * 19013 + 19)
     g = Gen(rng, max_depth=3, allow_errors=0.02, small_floats=True)   # trace prints every stack value at every step
     progs = [g.program() for _ in range(ctx.n(120, 1200))]
@@ -333,6 +346,7 @@ def check_C19(ctx):
     for i, p in enumerate(progs):
         for o in COMBOS:
             cases.append(dict(id="o%d/%s" % (i, o), src=p, opts=o, name=rng.choice(["input", "", "f.bcl"]) if False else "input"))
+        cases[-len(COMBOS)]["seq"] = SEQ       # the plain case also executes ONE Prog under a sequence of option sets
     rs, missing, err = interp.run(ctx, cases)
     decide(ctx, rs, missing, err, {"outws", "blocks", "binding", "err", "log"}, "C19_results_equal", "opts", spec=False)
     by = {}
@@ -343,6 +357,21 @@ def check_C19(ctx):
         base = by.get("o%d/" % i)
         if not base:
             continue
+        b = base[1]
+        plain = None
+        for st in b.get("_seq") or []:
+            # an introspecting execution leaves nothing behind: every plain execution of the same Prog, before and
+            # after traced ones, equals the plain run of a freshly parsed one
+            ctx.count(1)
+            if st["opts"] == "":
+                got = (st["class"], st.get("err", ""), st["out"], st["blocks"], st["binding"])
+                want = (b["Class"] if b["Class"] != "err" else "ok", b["Err"], b["Out"], b["Blocks"], b["Binding"])
+                if got != want:
+                    ctx.violation("a plain execution of a Prog that was also executed with introspection options differs from the plain "
+                                  "run of a fresh Prog", dict(src_hex=p.hex(), src=p[:300].decode("utf8", "replace"), sequence=SEQ),
+                                  impl=st, model=dict(zip(("class", "err", "out", "blocks", "binding"), want)),
+                                  theorem="C19_results_equal", key="opts-leave-state")
+                    break
         for oname in COMBOS[1:]:
             x = by.get("o%d/%s" % (i, oname))
             if not x:
